@@ -248,10 +248,20 @@ def nested_cases(rng, tier):
             out.append(dict(kind="nested", draws=[], cassette=["memory", "file", "s3"][k % 3], pre=pre, post=post, same_program=same,
                             runs=[dict(kind="record", enabled=True, prm=PRM, op=rd.clean(P), save_fails=False)], replayed=rd.clean(Pp)))
             k += 1
+    def fault_free(op):
+        # a data handler that FAILS on what the replayed code sends makes the recorder call discard_recording() - a no-op in
+        # an ordinary replay, but here it drops the endpoint's active recording (observed on the unchanged code: cassette calls
+        # create, get, abort).  Tolerated faults are C04's subject; the handlers of these cases succeed.
+        for n in rd.walk(op["body"]):
+            if n["k"] == "out" and n["cfg"]["handler"] == "raises":
+                n["cfg"]["handler"] = "wrap"
+            if n["k"] == "in" and n["cfg"]["handler"] in ("prep_raises", "restore_raises"):
+                n["cfg"]["handler"] = "wrap"
+        return op
     for _ in range(10 if tier == "quick" else 150):
-        P = rd.rand_opdef(rng, W_NESTED, budget=8, cls="OpA")
+        P = fault_free(rd.rand_opdef(rng, W_NESTED, budget=8, cls="OpA"))
         same = rng.random() < 0.6
-        Pp = rd.clean(P) if same else rd.rand_opdef(rng, W_NESTED, budget=8, cls="OpA")
+        Pp = rd.clean(P) if same else fault_free(rd.rand_opdef(rng, W_NESTED, budget=8, cls="OpA"))
         out.append(dict(kind="nested", draws=[], cassette="memory", pre=rng.random() < 0.7, post=rng.random() < 0.7, same_program=False,
                         runs=[dict(kind="record", enabled=True, prm=PRM, op=P, save_fails=False)], replayed=Pp, unshare=True))
     return out
